@@ -3,6 +3,7 @@ import multiprocessing as mp
 
 from .. import corpus, e1, oracles
 from ..common import ncpu
+from ..e3 import _Guard as _G
 
 
 class _Cfg:
@@ -38,7 +39,7 @@ def run(rep, tier, names=("c03_events",), plain=False):
     its = [(t, b, names) for t, b in items(tier, plain)]
     total = e1.Out()
     with mp.get_context("fork").Pool(ncpu()) as pool:
-        for o in pool.imap_unordered(_one, its, chunksize=32):
+        for o in pool.imap_unordered(_G(_one, rep.prop), its, chunksize=32):
             total.merge(o)
     rep.add("corpus_pickles", len(its))
     rep.add("evaluations", len(its))
